@@ -50,9 +50,9 @@ def _gen_op(ch, depth):
 
 # the timers and their control events are defined in machines/c13/modes/m1/config/m1.yaml; ARGS mirrors the values there
 TIMERS = {"t_up": {"start": 0, "end": 5, "dir": 1, "interval": 1.0,
-                   "args": {"pause": 2, "pause0": 0, "add": 2, "subtract": 1, "jump": 3, "set_interval": 0.5}},
+                   "args": {"pause": 1.9, "pause0": 0, "add": 2, "subtract": 1, "jump": 3, "set_interval": 0.5}},
           "t_down": {"start": 4, "end": 0, "dir": -1, "interval": 0.25,
-                     "args": {"pause": 1, "pause0": 0, "add": 2, "subtract": 1, "jump": 2, "set_interval": 0.1}}}
+                     "args": {"pause": 0.5, "pause0": 0, "add": 2, "subtract": 1, "jump": 2, "set_interval": 0.1}}}
 
 
 def plan(ch, tier):
